@@ -3,6 +3,7 @@ import CM.Proofs.QuoteGFinal
 import CM.Proofs.ItemClose
 import CM.Proofs.ItemEof
 import CM.Proofs.ItemFirstLine
+import CM.Proofs.ItemFinal
 import CM.Proofs.RefDefSpansMain
 import CM.Props.C01Blocks
 /-
@@ -83,5 +84,20 @@ theorem item_eof_sim : type_of% @Item.processLine_eof_simI := @Item.processLine_
 
 /-- The thematic-break exception of the property is needed: `* ` in front of `* *` is a thematic break. -/
 theorem item_thematic_break : type_of% @Item.item_thematic_break := @Item.item_thematic_break
+
+/-- **Block-phase C09 for list items, stream level** (8 further files): for every clean document D without whitespace-only
+    lines, starting with a non-space, without setext underlines, and every marker `I` (a structure: marker bytes of width ≥ 1,
+    N in 1..4 spaces, recognised by `parseListMarker` whatever follows; instances for `-`, `+`, `*` and `12)` are provided),
+    unless the first line of the result is a thematic break: the block phase of `item m N D` delivers exactly one root, a list
+    with one item (both spanning the input, delimiter and content offset as expected) whose children are the marker followed by
+    blocks related one by one to the root blocks of D. -/
+theorem blocks_item_sim (x : PExt) (I : Item.IP) (D : Bytes) (hc : Clean D) (hne : D ≠ []) (hul : NoULD D)
+    (hnb : Item.NoBlankD D) (h0 : D.getD 0 0 ≠ SP)
+    (htb : parseThematicBreak (I.m ++ (Item.spaces I.N ++ D.take (lineLen D))) < 0) :
+    ∃ (rq : Root) (pQ : BP),
+      drain (blocksLP x) ((Item.item I.m I.N D).length + 8) (memParser (Item.item I.m I.N D)) [] = ([rq], .err .eof, pQ) ∧
+      rq.source = Item.item I.m I.N D ∧ rq.startOffset = 0 ∧ rq.endOffset = (Item.item I.m I.N D).length ∧
+      Item.ItemRelatedS (Item.DRi I.m I.N D) I D (drain (blocksLP x) (D.length + 8) (memParser D) []).1 rq.block :=
+  Item.blocks_item_sim x I D hc hne hul hnb h0 htb
 
 end CM.Props.C09
